@@ -984,7 +984,10 @@ pub fn check_c14(tier: &str) -> i32 {
     rep.bounds = json!({"strategy_sequence_length": if rep.thorough() { 12 } else { 10 }, "task_depth": if rep.thorough() { 14 } else { 11 }});
     c14_pure(&mut rep);
     check_c14_sim(&mut rep);
-    for c in ["strategy-sequence", "ev:connect-fail", "ev:connect-ok", "ev:advance-to-next", "ev:advance-to-just-before", "ev:eof", "ev:disable"] {
+    crate::checks::lifecycle_net::net_phase(&mut rep, "C14");
+    crate::checks::serial_pty::serial_client_phase(&mut rep, "C14");
+    crate::checks::serial_pty::rtu_server_phase(&mut rep);
+    for c in ["rtu-server-pty-scenario", "serial-history-pty", "net-history-tcp", "strategy-sequence", "ev:connect-fail", "ev:connect-ok", "ev:advance-to-next", "ev:advance-to-just-before", "ev:eof", "ev:disable"] {
         rep.require_class(c);
     }
     rep.assumptions.push("(min,max) with min > max is outside the property (min and 'capped at max' contradict each other)".into());
@@ -1001,7 +1004,8 @@ pub fn check_c13(tier: &str) -> i32 {
     rep.bounds = json!({"depth": if rep.thorough() { 8 } else { 6 }, "handles": 2});
     check_c13_sim(&mut rep);
     crate::checks::lifecycle_net::net_phase(&mut rep, "C13");
-    for c in ["net-history-tcp", "net-history-tls", "ev:enable", "ev:disable", "ev:shutdown", "ev:drop-handle", "ev:connect-fail", "ev:connect-ok", "ev:eof", "ev:advance-to-next", "ev:submit-future"] {
+    crate::checks::serial_pty::serial_client_phase(&mut rep, "C13");
+    for c in ["serial-history-pty", "net-history-tcp", "net-history-tls", "ev:enable", "ev:disable", "ev:shutdown", "ev:drop-handle", "ev:connect-fail", "ev:connect-ok", "ev:eof", "ev:advance-to-next", "ev:submit-future"] {
         rep.require_class(c);
     }
     rep.finish()
